@@ -119,7 +119,9 @@ class CommonSubexpressionEliminationPass(ir.passes.InPlacePass):
 
             node_info = (
                 node.op_identifier(),
-                len(node.outputs),
+                # which outputs are present: an omitted optional output (empty name) must not
+                # stand in for a used one
+                tuple(output.name == "" for output in node.outputs),
                 tuple(id(input) for input in node.inputs),
                 tuple(sorted(attributes.items())),
             )
